@@ -564,7 +564,7 @@ impl FlatGraph {
             }
             for line in 1..lines {
                 _mm_prefetch(
-                    ptr.add(line.saturating_mul(PREFETCH_CACHELINE_BYTES)),
+                    ptr.wrapping_add(line.saturating_mul(PREFETCH_CACHELINE_BYTES)),
                     _MM_HINT_T0,
                 );
             }
